@@ -311,8 +311,8 @@ def _formula(kind, params):
         low = params[0]
         return (lambda f: math.log2(f / low)), (lambda z: (2.0 ** z) * low)
     if kind == "mel":
-        return ref.mel_from_hz, None
-    return ref.bark_from_hz, None
+        return ref.mel_from_hz, ref.hz_from_mel
+    return ref.bark_from_hz, ref.hz_from_bark
 
 
 def _history_point(pt):
@@ -346,8 +346,6 @@ def _history_point(pt):
             r = computers.call(objs[op[1]].hertz_to_scale, op[2])
             want = fwd(op[2])
         else:
-            if inv is None:
-                continue
             r = computers.call(objs[op[1]].scale_to_hertz, op[2])
             want = inv(op[2])
         tol = 2e-5 if kind == "mel" else 1e-9
@@ -389,6 +387,19 @@ def _history_points(tier):
                 pts.append([["new", "A", kind, base], [first, "A", 440.0 if first == "h2s" else 3.0],
                             ["set", "A", attr, v], ["h2s", "A", 440.0], ["s2h", "A", 3.0],
                             ["h2s", "A", 160.0]])
+    # the SAME number used as a frequency and as a scale value (every order, one and two instances,
+    # int and float spellings of it): an answer remembered for one direction must never be served
+    # for the other
+    both = {"linear": [[20.0, 2.0]], "octave": [[20.0]], "mel": [[]], "bark": [[]]}
+    for kind, vs in both.items():
+        for pa in vs:
+            for v in ((3.0, 3), (20.0, 20), (1.0, 1)) + (((100.0, 100), (1000.0, 1000)) if kind != "bark" and kind != "octave" else ()):
+                for a, b in (("h2s", "s2h"), ("s2h", "h2s")):
+                    for va in v:
+                        for vb in v:
+                            pts.append([["new", "A", kind, pa], [a, "A", va], [b, "A", vb], [a, "A", va]])
+                            pts.append([["new", "A", kind, pa], ["new", "B", kind, pa],
+                                        [a, "A", va], [b, "B", vb], [a, "B", va], [b, "A", vb]])
     return pts
 
 
@@ -470,8 +481,9 @@ def subchecks(tier, seed):
             "histories", _history_points(tier), _history_point,
             "objects living in one process: two instances of a class with different parameters queried at "
             "the same frequencies (both orders), and documented public attributes (low_hz, slope_hz) "
-            "re-assigned on an object that has already been used; every value vs the closed form for the "
-            "object's current parameters",
+            "re-assigned on an object that has already been used; the same number (int and float "
+            "spellings) passed as a frequency and as a scale value in every order on one and two "
+            "instances; every value vs the closed form for the object's current parameters",
             replay=lambda case: _history_point(case["ops"])),
         core.SubCheck(
             "anchors", anchors, _anchor_point,
